@@ -1,0 +1,87 @@
+//go:build verif
+
+package compiler
+
+import (
+	"github.com/open2b/scriggo/ast"
+)
+
+// Verification hooks (add-only, build tag "verif"): the expression parser
+// driven with explicit flags, and the tokens of an expression source, for
+// the print/parse property of the primary-expression grammar.
+
+// VerifExprToken is a token of an expression source.
+type VerifExprToken struct {
+	Typ string // name of the token type (tokenString)
+	Txt string // text of the token
+}
+
+func verifExprLexer(src []byte, template bool) *lexer {
+	if template {
+		s := make([]byte, 0, len(src)+6)
+		s = append(append(append(s, "{{ "...), src...), " }}"...)
+		return scanTemplate(s, ast.FormatText, false)
+	}
+	return scanProgram(src)
+}
+
+// VerifLexExpr returns the tokens of src read as an expression between {{
+// and }} if template is true, otherwise as program source. The opening
+// braces and the final EOF are not returned (the closing braces are). ok is
+// false if the lexer reports an error.
+func VerifLexExpr(src []byte, template bool) (toks []VerifExprToken, ok bool) {
+	lex := verifExprLexer(src, template)
+	first := true
+	for tok := range lex.Tokens() {
+		if tok.typ == tokenEOF || template && first && tok.typ == tokenLeftBraces {
+			first = false
+			continue
+		}
+		first = false
+		toks = append(toks, VerifExprToken{Typ: tok.typ.String(), Txt: string(tok.txt)})
+	}
+	return toks, lex.error() == nil
+}
+
+// VerifParseExprFlags calls parseExpr on the first token of src (after the
+// opening braces if template is true) with the given flags. It returns the
+// expression (nil if parseExpr returns nil) and the number of tokens not
+// consumed: 0 if the token that parseExpr returns is EOF, otherwise 1 plus
+// the number of tokens that follow it before EOF (the closing braces of a
+// template expression are counted).
+func VerifParseExprFlags(src []byte, template, canBeSwitchGuard, canElideType, mustBeType, nextIsBlockBrace bool) (expr ast.Expression, rest int, err error) {
+	lex := verifExprLexer(src, template)
+	p := &parsing{lex: lex}
+	defer func() {
+		lex.Stop()
+		if r := recover(); r != nil {
+			if e, ok := r.(*SyntaxError); ok {
+				expr, err = nil, e
+				return
+			}
+			panic(r)
+		}
+	}()
+	tok := p.next()
+	if template {
+		if tok.typ != tokenLeftBraces {
+			return nil, 0, nil
+		}
+		tok = p.next()
+	}
+	expr, tok = p.parseExpr(tok, canBeSwitchGuard, canElideType, mustBeType, nextIsBlockBrace)
+	if tok.typ == tokenEOF {
+		return expr, 0, nil
+	}
+	rest = 1
+	for t := range lex.Tokens() {
+		if t.typ == tokenEOF {
+			break
+		}
+		rest++
+	}
+	if e := lex.error(); e != nil {
+		return nil, 0, e
+	}
+	return expr, rest, nil
+}
